@@ -52,6 +52,9 @@ ATLAS_Q = [
     ("a_cols_pt", [["Select", "lambda e: {'pt': e.Jets('AntiKt4EMTopoJets').Count()}"]]),
     ("a_cols_pt1_pt", [["Select", "lambda e: {'pt1': e.Jets('AntiKt4EMTopoJets').Count(), 'pt': e.Jets('AntiKt4EMTopoJets').Where(lambda x: x.pt() > 1.0).Count()}"]]),
     ("a_cols12", [["Select", "lambda e: (e.Jets('AntiKt4EMTopoJets').Where(lambda x: x.pt() > 0.0).Count(), e.Jets('AntiKt4EMTopoJets').Where(lambda x: x.pt() > 1.0).Count(), e.Jets('AntiKt4EMTopoJets').Where(lambda x: x.pt() > 2.0).Count(), e.Jets('AntiKt4EMTopoJets').Where(lambda x: x.pt() > 3.0).Count(), e.Jets('AntiKt4EMTopoJets').Where(lambda x: x.pt() > 4.0).Count(), e.Jets('AntiKt4EMTopoJets').Where(lambda x: x.pt() > 5.0).Count(), e.Jets('AntiKt4EMTopoJets').Where(lambda x: x.pt() > 6.0).Count(), e.Jets('AntiKt4EMTopoJets').Where(lambda x: x.pt() > 7.0).Count(), e.Jets('AntiKt4EMTopoJets').Where(lambda x: x.pt() > 8.0).Count(), e.Jets('AntiKt4EMTopoJets').Where(lambda x: x.pt() > 9.0).Count(), e.Jets('AntiKt4EMTopoJets').Where(lambda x: x.pt() > 10.0).Count(), e.Jets('AntiKt4EMTopoJets').Where(lambda x: x.pt() > 11.0).Count())"]]),
+    # a query so deep that it runs into the interpreter's recursion limit (400 terms): refused in a fresh process, and so it
+    # must be after any history (the limit is interpreter-wide state)
+    ("a_bad_deep_sum", [["Select", "lambda e: e.Jets('AntiKt4EMTopoJets').Select(lambda j: " + " + ".join(["j.pt()"] * 400) + ")"]]),
     # ones that must be refused
     ("a_bad_slice", [["Select", f"lambda e: {JETS}.Select(lambda j: j.pt())[0:2]"]]),
     ("a_bad_chain_cmp", [["SelectMany", f"lambda e: {JETS}"], ["Where", "lambda j: 1.0 < j.pt() < 3.0"], ["Select", "lambda j: j.pt()"]]),
@@ -93,6 +96,7 @@ CMS_AOD_Q = [
     ("c_cols_pt", [["Select", "lambda e: {'pt': e.Muons('muons').Count()}"]]),
     ("c_cols_pt1_pt", [["Select", "lambda e: {'pt1': e.Muons('muons').Count(), 'pt': e.Muons('muons').Where(lambda x: x.pt() > 1.0).Count()}"]]),
     ("c_cols12", [["Select", "lambda e: (e.Muons('muons').Where(lambda x: x.pt() > 0.0).Count(), e.Muons('muons').Where(lambda x: x.pt() > 1.0).Count(), e.Muons('muons').Where(lambda x: x.pt() > 2.0).Count(), e.Muons('muons').Where(lambda x: x.pt() > 3.0).Count(), e.Muons('muons').Where(lambda x: x.pt() > 4.0).Count(), e.Muons('muons').Where(lambda x: x.pt() > 5.0).Count(), e.Muons('muons').Where(lambda x: x.pt() > 6.0).Count(), e.Muons('muons').Where(lambda x: x.pt() > 7.0).Count(), e.Muons('muons').Where(lambda x: x.pt() > 8.0).Count(), e.Muons('muons').Where(lambda x: x.pt() > 9.0).Count(), e.Muons('muons').Where(lambda x: x.pt() > 10.0).Count(), e.Muons('muons').Where(lambda x: x.pt() > 11.0).Count())"]]),
+    ("c_bad_deep_sum", [["Select", "lambda e: e.Muons('muons').Select(lambda m: " + " + ".join(["m.pt()"] * 400) + ")"]]),
     ("c_bad_slice", [["Select", 'lambda e: e.Muons("muons").Select(lambda m: m.pt())[0:2]']]),
     ("c_bad_raw", [["Select", 'lambda e: e.Muons("muons")']]),
     ("c_bad_method_on_double", [["SelectMany", 'lambda e: e.Muons("muons")'], ["Select", "lambda m: m.pt().eta()"]]),
